@@ -65,7 +65,13 @@ func VerifAnthropicStreamRoute() {
 				n = 1
 			}
 			for i := 0; i < n; i++ {
-				io.WriteString(w, chunk(string(text), nil))
+				line := chunk(string(text), nil)
+				if pad := gosym.Param("PAD"); pad > 0 && i == 0 {
+					// a very long SSE line (large tool arguments / deltas): PAD bytes of insignificant
+					// whitespace in front of the JSON text
+					line = "data: " + strings.Repeat(" ", pad) + strings.TrimPrefix(line, "data: ")
+				}
+				io.WriteString(w, line)
 			}
 			if behaviour == zzSStreamOK {
 				io.WriteString(w, chunk("", "stop"))
